@@ -1,98 +1,107 @@
 #!/venv/bin/python
-"""Correspondence check C11 / C06-tables: Lean model (compiled driver) vs the real python code.
+"""C11 — clients sharing one core package keep working as more are generated.
 
-Drives the REAL `ExceptionsEmitter` (emit / _is_shared_core / _update_registry / _generate_for_codes),
-`ExceptionVisitor.visit` and `core.http_status_codes` on seeded random + hand-picked inputs and compares
-with the model functions `registryTrace`, `isSharedCore`, `specCodes`, `aliasName`, `aliasBase`,
-`isErrorCode`/`isClientError`/`isServerError` after EVERY step.  Prints every disagreement and
-finally `<n> disagreements`.
+run():    correspondence of the Lean registry model (`registryTrace`/`registryRun`, `isSharedCore`, `specCodes`,
+          `aliasName`, `aliasBase`) with the REAL `ExceptionsEmitter` (emit / _is_shared_core / _update_registry /
+          _generate_for_codes) and `ExceptionVisitor.visit`, after EVERY step of random histories.
+oracle(): the property itself, end to end on the real generator: histories of `generate_client` runs of several clients
+          into one project with a shared core package at depth 1..4; after every step every client generated so far is
+          imported in a fresh subprocess.  No Lean involved.
+replay(): re-runs one oracle case.
+
+Importable: no work and no `pyopenapi_gen` import at module import time.
 """
+from __future__ import annotations
+
 import ast
+import contextlib
+import io
 import json
 import os
 import random
 import shutil
 import subprocess
 import sys
+import tempfile
+from concurrent.futures import ThreadPoolExecutor
 
-HERE = os.path.dirname(os.path.abspath(__file__))
-SCRATCH = os.path.realpath(f"/tmp/corr_c11_{os.getpid()}")
-shutil.rmtree(SCRATCH, ignore_errors=True)
-os.makedirs(os.path.join(SCRATCH, "tmp"))
-os.environ["TMPDIR"] = os.path.join(SCRATCH, "tmp")  # generator debug log goes here
+PYTHON = "/venv/bin/python"
+DEFAULT_DRIVER = "/verif/lean/.lake/build/bin/driver"
 
-from pyopenapi_gen import HTTPMethod, IROperation, IRResponse, IRSpec  # noqa: E402
-from pyopenapi_gen.context.render_context import RenderContext  # noqa: E402
-from pyopenapi_gen.core import http_status_codes as hsc  # noqa: E402
-from pyopenapi_gen.emitters.exceptions_emitter import ExceptionsEmitter  # noqa: E402
-from pyopenapi_gen.visit.exception_visitor import ExceptionVisitor  # noqa: E402
-
-
-class Driver:
-    """The driver flushes its output at EOF only, so requests are sent in batches (one process per batch)."""
-
-    exe = os.path.join(HERE, ".lake/build/bin/driver")
-
-    def batch(self, reqs):
-        if not reqs:
-            return []
-        inp = "".join(json.dumps({"f": f, "a": list(a)}) + "\n" for f, *a in reqs)
-        out = subprocess.run([self.exe], input=inp, capture_output=True, text=True, timeout=120, check=True).stdout
-        res = [json.loads(line) for line in out.splitlines()]
-        assert len(res) == len(reqs), (len(res), len(reqs))
-        for q, r in zip(reqs, res):
-            if isinstance(r, dict) and "error" in r:
-                raise RuntimeError(f"driver error {q}: {r['error']}")
-        return res
-
-    def call(self, f, *a):
-        return self.batch([(f, *a)])[0]
-
-    def close(self):
-        pass
+RULE = (
+    "visitor: random specs (0-3 operations x 0-6 response keys from a pool with numeric, zero-padded, 'default', '4XX', '' "
+    "keys) -> status codes vs `specCodes`, class names vs `aliasName`; layouts: hand-picked + random (project root, core "
+    "dir) pairs incl. '/', '..', '.', trailing '/', root None/'' -> `_is_shared_core` vs `isSharedCore`; histories: "
+    "hand-picked counterexample histories + random histories (2-4 clients, 1-6 steps, core dir 1-4 levels below the project "
+    "root, occasionally client name None/'' or project root None/''/parent) through the real ExceptionsEmitter.emit into "
+    "one core dir; after EVERY step registry file (content and key order), alias class names in file order, their base "
+    "classes, __all__ and the return value are compared with the model trace.  A history is NON-TRIVIAL when it has >= 2 "
+    "different client names and declares >= 1 error (4xx/5xx) code; distinct (depth, steps) are counted."
+)
 
 
-drv = Driver()
-bad = 0
-checks = 0
+# ---------------------------------------------------------------------------------------------- helpers
+
+def _drive(driver: str, reqs: list) -> list:
+    """one batch: the driver answers at EOF"""
+    if not reqs:
+        return []
+    inp = "".join(json.dumps({"f": f, "a": list(a)}) + "\n" for f, *a in reqs)
+    p = subprocess.run([driver], input=inp, capture_output=True, text=True, timeout=600)
+    lines = p.stdout.splitlines()
+    assert len(lines) == len(reqs), (len(lines), len(reqs), p.stderr[-2000:])
+    res = [json.loads(x) for x in lines]
+    for q, r in zip(reqs, res):
+        if isinstance(r, dict) and "error" in r:
+            raise RuntimeError(f"driver error {q}: {r['error']}")
+    return res
 
 
-def disagree(what, **kw):
-    global bad
-    bad += 1
-    print("DISAGREE", what, json.dumps(kw, default=str))
+@contextlib.contextmanager
+def _scratch(tag: str):
+    """scratch dir under VERIF_SCRATCH_DIR; TMPDIR / tempfile.tempdir point into it (the generator appends a debug log
+    to tempfile.gettempdir()); everything is restored and removed on exit"""
+    base = os.environ.get("VERIF_SCRATCH_DIR", "/tmp")
+    os.makedirs(base, exist_ok=True)
+    d = os.path.realpath(tempfile.mkdtemp(prefix=f"corr_c11_{tag}_", dir=base))
+    old_env, old_td = os.environ.get("TMPDIR"), tempfile.tempdir
+    os.makedirs(os.path.join(d, "tmp"))
+    os.environ["TMPDIR"] = os.path.join(d, "tmp")
+    tempfile.tempdir = os.path.join(d, "tmp")
+    try:
+        yield d
+    finally:
+        tempfile.tempdir = old_td
+        if old_env is None:
+            os.environ.pop("TMPDIR", None)
+        else:
+            os.environ["TMPDIR"] = old_env
+        shutil.rmtree(d, ignore_errors=True)
 
 
-def comps(path: str):
+def _comps(path: str) -> list:
     """components of a resolved absolute path ('/' -> [])"""
-    rp = os.path.realpath(path)
-    return [c for c in rp.split("/") if c]
+    return [c for c in os.path.realpath(path).split("/") if c]
 
 
-def mk_spec(statuses_per_op):
-    ops = []
-    for i, statuses in enumerate(statuses_per_op):
-        ops.append(
-            IROperation(
-                operation_id=f"op{i}",
-                method=HTTPMethod.GET,
-                path=f"/x{i}",
-                summary=None,
-                description=None,
-                responses=[IRResponse(status_code=s, description="", content={}) for s in statuses],
-            )
-        )
+def _declared_of(per_op) -> list:
+    # abstraction boundary of the model: the numeric status strings as ints
+    return [int(s) for sts in per_op for s in sts if s.isdigit()]
+
+
+def _mk_spec(per_op):
+    from pyopenapi_gen import HTTPMethod, IROperation, IRResponse, IRSpec
+
+    ops = [
+        IROperation(operation_id=f"op{i}", method=HTTPMethod.GET, path=f"/x{i}", summary=None, description=None,
+                    responses=[IRResponse(status_code=s, description="", content={}) for s in sts])
+        for i, sts in enumerate(per_op)
+    ]
     return IRSpec(title="t", version="1", schemas={}, operations=ops, servers=[])
 
 
-def declared_of(statuses_per_op):
-    # abstraction boundary of the model: the numeric status strings as ints
-    return [int(s) for sts in statuses_per_op for s in sts if s.isdigit()]
-
-
-def parse_alias_file(path):
-    src = open(path).read()
-    tree = ast.parse(src)
+def _parse_alias_file(path):
+    tree = ast.parse(open(path).read())
     classes = [(n.name, [ast.unparse(b) for b in n.bases]) for n in tree.body if isinstance(n, ast.ClassDef)]
     all_list = None
     for n in tree.body:
@@ -101,203 +110,369 @@ def parse_alias_file(path):
     return classes, all_list
 
 
-# ---------------------------------------------------------------- tables: every code 0..799
-TABLE_CODES = list(range(0, 800)) + [1000, 4040, 10**9, 2**64 + 404]
-FNS = ["aliasName", "aliasBase", "isErrorCode", "isClientError", "isServerError"]
-_res = drv.batch([(fn, code) for code in TABLE_CODES for fn in FNS])
-MODEL = {fn: {} for fn in FNS}
-for i, code in enumerate(TABLE_CODES):
-    for j, fn in enumerate(FNS):
-        MODEL[fn][code] = _res[i * len(FNS) + j]
-
-
-def m_alias_name(code):
-    if code not in MODEL["aliasName"]:
-        MODEL["aliasName"][code] = drv.call("aliasName", code)
-    return MODEL["aliasName"][code]
-
-
-def m_alias_base(code):
-    if code not in MODEL["aliasBase"]:
-        MODEL["aliasBase"][code] = drv.call("aliasBase", code)
-    return MODEL["aliasBase"][code]
-
-
-for code in TABLE_CODES:
-    checks += 5
-    py = hsc.get_exception_class_name(code)
-    if py != MODEL["aliasName"][code]:
-        disagree("aliasName", code=code, py=py, model=MODEL["aliasName"][code])
-    for fn, pyf in (("isErrorCode", hsc.is_error_code), ("isClientError", hsc.is_client_error),
-                    ("isServerError", hsc.is_server_error)):
-        if pyf(code) != MODEL[fn][code]:
-            disagree(fn, code=code)
-    pb = "ClientError" if hsc.is_client_error(code) else "ServerError" if hsc.is_server_error(code) else None
-    if pb != MODEL["aliasBase"][code]:
-        disagree("aliasBase", code=code, py=pb)
-
-# ---------------------------------------------------------------- visitor: which codes a spec contributes
-rng = random.Random(1106)
 POOL = ["200", "204", "301", "400", "401", "404", "409", "418", "422", "429", "499", "500", "501", "503", "599",
         "600", "default", "0404", "4XX", "", "100", "399", "1000", "05"]
-_cases = []
-for t in range(300):
-    per_op = [[rng.choice(POOL) for _ in range(rng.randint(0, 6))] for _ in range(rng.randint(0, 3))]
-    spec = mk_spec(per_op)
-    ctx = RenderContext(package_root_for_generated_code=SCRATCH, core_package_name="core",
-                        overall_project_root=SCRATCH)
-    ctx.set_current_file(os.path.join(SCRATCH, "exception_aliases.py"))
-    _code, names, codes = ExceptionVisitor().visit(spec, ctx)
-    _cases.append((per_op, names, codes))
-_res = drv.batch([("specCodes", declared_of(per_op)) for per_op, _, _ in _cases])
-for (per_op, names, codes), m in zip(_cases, _res):
-    checks += 2
-    if codes != m:
-        disagree("specCodes", per_op=per_op, py=codes, model=m)
-    if names != [m_alias_name(c) for c in m]:
-        disagree("visit names", per_op=per_op, py=names)
-
-# ---------------------------------------------------------------- _is_shared_core on random layouts
-NAMES = ["zzc11_a", "zzc11_b", "core", "x", "y", "z", "pkg"]
-
-
-def rand_path(n):
-    return "/" + "/".join(rng.choice(NAMES) for _ in range(n))
-
-
-_shared_cases = []
-
-
-def check_shared(root_arg, core_arg):
-    """python answer now; the model is asked in one batch by flush_shared()"""
-    py = ExceptionsEmitter(core_package_name="core", overall_project_root=root_arg)._is_shared_core(core_arg)
-    _shared_cases.append((root_arg, core_arg, py))
-    return py
-
-
-def flush_shared():
-    global checks
-    res = drv.batch([("isSharedCore", comps(r) if r else None, comps(c)) for r, c, _ in _shared_cases])
-    for (r, c, py), m in zip(_shared_cases, res):
-        checks += 1
-        if py != m:
-            disagree("isSharedCore", root=r, core=c, py=py, model=m)
-    _shared_cases.clear()
-
-
-for root_arg, core_arg in [("/", "/"), ("/", "/core"), ("/", "/a/core"), ("/", "/a/b/core"), ("/zzc11_a", "/zzc11_a"),
-                           ("/zzc11_a", "/"), ("/zzc11_a/x", "/zzc11_a"), (None, "/zzc11_a/core"),
-                           ("", "/zzc11_a/core"), ("/zzc11_a", "/zzc11_a/x/../core"),
-                           ("/zzc11_a/.", "/zzc11_a/x/y/../../core/"), ("/zzc11_a", "/zzc11_b/core"),
-                           ("/zzc11_a", "/zzc11_a/x/y/core"), ("/zzc11_a", "/zzc11_a/x/y/z/core")]:
-    check_shared(root_arg, core_arg)
-for t in range(600):
-    root = rand_path(rng.randint(0, 3)) if rng.random() < 0.9 else rng.choice([None, ""])
-    k = rng.random()
-    if root and k < 0.7:
-        core = root.rstrip("/") + "".join("/" + rng.choice(NAMES) for _ in range(rng.randint(0, 4)))
-    else:
-        core = rand_path(rng.randint(0, 5))
-    if rng.random() < 0.15:
-        core = core + "/q/.."
-    check_shared(root, core or "/")
-flush_shared()
-
-# ---------------------------------------------------------------- histories through the real emitter
 CODES = ["200", "204", "301", "400", "401", "404", "409", "418", "422", "429", "499", "500", "501", "503", "599",
          "600", "default"]
 CLIENTS = ["client_a", "client_b", "zeta", "Alpha"]
-depth_seen = {1: 0, 2: 0, 3: 0, 4: 0}
-shared_steps = unshared_steps = 0
+NAMES = ["zzc11_a", "zzc11_b", "core", "x", "y", "z", "pkg"]
+HAND_LAYOUTS = [("/", "/"), ("/", "/core"), ("/", "/a/core"), ("/", "/a/b/core"), ("/zzc11_a", "/zzc11_a"),
+                ("/zzc11_a", "/"), ("/zzc11_a/x", "/zzc11_a"), (None, "/zzc11_a/core"), ("", "/zzc11_a/core"),
+                ("/zzc11_a", "/zzc11_a/x/../core"), ("/zzc11_a/.", "/zzc11_a/x/y/../../core/"),
+                ("/zzc11_a", "/zzc11_b/core"), ("/zzc11_a", "/zzc11_a/x/y/core"), ("/zzc11_a", "/zzc11_a/x/y/z/core")]
 
 
-def run_history(trial, depth, steps):
-    global checks, shared_steps, unshared_steps
-    root = os.path.join(SCRATCH, f"h{trial}", "proj")
-    parts = [rng.choice(["pkg", "x", "y", "shared"]) for _ in range(depth - 1)] + ["core"]
-    core_dir = os.path.join(root, *parts)
-    os.makedirs(core_dir)
-    core_pkg = ".".join(parts)
-    depth_seen[depth] += 1
-    # the model decides `shared` for every step with ITS isSharedCore
-    shared_m = drv.batch([("isSharedCore", comps(r) if r else None, comps(core_dir)) for _, _, r in steps])
-    gens = [{"client": client, "declared": declared_of(per_op), "shared": sh}
-            for (client, per_op, _), sh in zip(steps, shared_m)]
-    model_trace, model_final = drv.batch([("registryTrace", gens), ("registryRun", gens)])
-    checks += 1
-    if model_trace[-1] != model_final or len(model_trace) != len(steps):
-        disagree("run vs trace", gens=gens)
-    for si, (client, per_op, root_arg) in enumerate(steps):
-        em = ExceptionsEmitter(core_package_name=core_pkg, overall_project_root=root_arg)
-        shared_py = check_shared(root_arg, core_dir)
-        if shared_py and client:
-            shared_steps += 1
-        else:
-            unshared_steps += 1
-        files, ret_names = em.emit(mk_spec(per_op), core_dir, client_package_name=client)
-        model = model_trace[si]
-        checks += 6
-        # registry file
-        reg_path = os.path.join(core_dir, ".exception_registry.json")
-        if os.path.exists(reg_path):
-            reg = json.loads(open(reg_path).read())
-            py_reg = [[k, v] for k, v in reg.items()]  # file order (sort_keys=True)
-        else:
-            py_reg = []
-        if py_reg != model["registry"]:
-            disagree("registry", trial=trial, step=si, gens=gens, py=py_reg, model=model["registry"])
-        # alias file
-        classes, all_list = parse_alias_file(os.path.join(core_dir, "exception_aliases.py"))
-        exp_names = [m_alias_name(c) for c in model["aliases"]]
-        exp_bases = [[m_alias_base(c)] for c in model["aliases"]]
-        if [n for n, _ in classes] != exp_names:
-            disagree("alias classes", trial=trial, step=si, gens=gens, py=[n for n, _ in classes], model=exp_names)
-        if [b for _, b in classes] != exp_bases:
-            disagree("alias bases", trial=trial, step=si, gens=gens, py=classes, model=exp_bases)
-        exp_all = sorted(exp_names) if exp_names else None
-        if all_list != exp_all:
-            disagree("__all__", trial=trial, step=si, gens=gens, py=all_list, model=exp_all)
-        if ret_names != sorted(exp_names):
-            disagree("emit return", trial=trial, step=si, py=ret_names, model=sorted(exp_names))
-        if files != [os.path.join(core_dir, "exception_aliases.py")]:
-            disagree("emit files", py=files)
-    shutil.rmtree(os.path.join(SCRATCH, f"h{trial}"), ignore_errors=True)
-    return gens
+# ---------------------------------------------------------------------------------------------- run
+
+def run(seed: int, scale: float, driver: str) -> dict:
+    from pyopenapi_gen.context.render_context import RenderContext
+    from pyopenapi_gen.emitters.exceptions_emitter import ExceptionsEmitter
+    from pyopenapi_gen.visit.exception_visitor import ExceptionVisitor
+
+    rng = random.Random(seed)
+    comparisons = 0
+    disagreements: list = []
+    dist = {"visitor_specs": 0, "layouts": 0, "layouts_shared_true": 0, "histories": 0,
+            "histories_by_depth": {1: 0, 2: 0, 3: 0, 4: 0}, "steps": 0, "registry_steps": 0, "plain_steps": 0,
+            "steps_unnamed": 0, "steps_no_root": 0, "regenerations_of_a_client": 0}
+    samples: list = []
+
+    def disagree(label, request, model, impl):
+        disagreements.append({"label": label, "request": request, "model": model, "impl": impl})
+
+    with _scratch("run") as scratch:
+        # ---------------- plan everything first (all random choices), then two driver batches
+        vis_cases = [[[rng.choice(POOL) for _ in range(rng.randint(0, 6))] for _ in range(rng.randint(0, 3))]
+                     for _ in range(max(1, int(1000 * scale)))]
+
+        def rand_path(n):
+            return "/" + "/".join(rng.choice(NAMES) for _ in range(n))
+
+        layouts = list(HAND_LAYOUTS)
+        for _ in range(max(1, int(2000 * scale))):
+            root = rand_path(rng.randint(0, 3)) if rng.random() < 0.9 else rng.choice([None, ""])
+            if root and rng.random() < 0.7:
+                core = root.rstrip("/") + "".join("/" + rng.choice(NAMES) for _ in range(rng.randint(0, 4)))
+            else:
+                core = rand_path(rng.randint(0, 5))
+            if rng.random() < 0.15:
+                core = core + "/q/.."
+            layouts.append((root, core or "/"))
+
+        # histories: (depth, parts, steps[(client, per_op, root_kind)]); root_kind in {"root","none","empty","parent"}
+        hists = []
+        for depth in (1, 2, 3, 4):  # the C11 counterexample and its recognised-layout contrast
+            hists.append((depth, [("client_a", [["200", "404"]], "root"), ("client_b", [["200", "500"]], "root"),
+                                  ("client_a", [["422", "404", "404"]], "root"), ("client_b", [[]], "root")]))
+        hists.append((1, [("client_a", [["404"]], "root"), (None, [["500"]], "root"), ("", [["418"]], "root"),
+                          ("client_b", [["503"]], "none"), ("client_b", [["503"]], "empty"),
+                          ("client_b", [["503"]], "root")]))
+        for _ in range(max(1, int(1000 * scale))):
+            depth = rng.randint(1, 4)
+            clients = rng.sample(CLIENTS, rng.randint(2, 4))
+            steps = []
+            for _s in range(rng.randint(1, 6)):
+                r = rng.random()
+                client = rng.choice(clients) if r < 0.92 else (None if r < 0.96 else "")
+                kind = "root" if rng.random() < 0.93 else rng.choice(["none", "empty", "parent"])
+                per_op = [[rng.choice(CODES) for _ in range(rng.randint(0, 5))] for _ in range(rng.randint(1, 3))]
+                steps.append((client, per_op, kind))
+            hists.append((depth, steps))
+        plans = []
+        for hi, (depth, steps) in enumerate(hists):
+            root = os.path.join(scratch, f"h{hi}", "proj")
+            parts = [rng.choice(["pkg", "x", "y", "shared"]) for _ in range(depth - 1)] + ["core"]
+            core_dir = os.path.join(root, *parts)
+            root_args = [{"root": root, "none": None, "empty": "", "parent": os.path.dirname(root)}[k]
+                         for _, _, k in steps]
+            plans.append((depth, steps, root, parts, core_dir, root_args))
+
+        # ---------------- driver batch A: specCodes, isSharedCore (layouts and history steps), name/base tables
+        reqs = [("specCodes", _declared_of(p)) for p in vis_cases]
+        reqs += [("isSharedCore", _comps(r) if r else None, _comps(c)) for r, c in layouts]
+        for depth, steps, root, parts, core_dir, root_args in plans:
+            reqs += [("isSharedCore", _comps(r) if r else None, _comps(core_dir)) for r in root_args]
+        tcodes = list(range(350, 650))
+        reqs += [("aliasName", c) for c in tcodes] + [("aliasBase", c) for c in tcodes]
+        res = _drive(driver, reqs)
+        pos = 0
+        m_vis = res[pos:pos + len(vis_cases)]; pos += len(vis_cases)
+        m_lay = res[pos:pos + len(layouts)]; pos += len(layouts)
+        m_shared = []
+        for pl in plans:
+            m_shared.append(res[pos:pos + len(pl[1])]); pos += len(pl[1])
+        m_name = dict(zip(tcodes, res[pos:pos + len(tcodes)])); pos += len(tcodes)
+        m_base = dict(zip(tcodes, res[pos:pos + len(tcodes)])); pos += len(tcodes)
+
+        # ---------------- driver batch B: the traces (the model decides `shared` with ITS isSharedCore)
+        all_gens = []
+        for (depth, steps, root, parts, core_dir, root_args), sh in zip(plans, m_shared):
+            all_gens.append([{"client": c, "declared": _declared_of(p), "shared": s}
+                             for (c, p, _), s in zip(steps, sh)])
+        res = _drive(driver, [("registryTrace", g) for g in all_gens] + [("registryRun", g) for g in all_gens])
+        m_trace, m_final = res[:len(all_gens)], res[len(all_gens):]
+
+        # ---------------- visitor
+        for per_op, m in zip(vis_cases, m_vis):
+            ctx = RenderContext(package_root_for_generated_code=scratch, core_package_name="core",
+                                overall_project_root=scratch)
+            ctx.set_current_file(os.path.join(scratch, "exception_aliases.py"))
+            _code, names, codes = ExceptionVisitor().visit(_mk_spec(per_op), ctx)
+            comparisons += 2
+            dist["visitor_specs"] += 1
+            if codes != m:
+                disagree("specCodes", per_op, m, codes)
+            exp = [m_name.get(c) for c in m]
+            if names != exp:
+                disagree("visit names", per_op, exp, names)
+
+        # ---------------- layouts
+        for (r, c), m in zip(layouts, m_lay):
+            py = ExceptionsEmitter(core_package_name="core", overall_project_root=r)._is_shared_core(c)
+            comparisons += 1
+            dist["layouts"] += 1
+            dist["layouts_shared_true"] += int(py)
+            if py != m:
+                disagree("isSharedCore", {"root": r, "core": c}, m, py)
+
+        # ---------------- histories through the real emitter
+        nontrivial_keys = set()
+        for hi, ((depth, steps, root, parts, core_dir, root_args), sh, gens, trace, final) in enumerate(
+                zip(plans, m_shared, all_gens, m_trace, m_final)):
+            os.makedirs(core_dir)
+            dist["histories"] += 1
+            dist["histories_by_depth"][depth] += 1
+            comparisons += 1
+            if len(trace) != len(steps) or trace[-1] != final:
+                disagree("run vs trace", gens, final, None)
+            names_seen = {g["client"] for g in gens if g["client"]}
+            if len(names_seen) >= 2 and any(400 <= c < 600 for g in gens for c in g["declared"]):
+                nontrivial_keys.add(json.dumps([depth, gens], sort_keys=True))
+            seen_clients = set()
+            for si, ((client, per_op, _k), root_arg, shm) in enumerate(zip(steps, root_args, sh)):
+                em = ExceptionsEmitter(core_package_name=".".join(parts), overall_project_root=root_arg)
+                shared_py = em._is_shared_core(core_dir)
+                comparisons += 1
+                if shared_py != shm:
+                    disagree("isSharedCore(step)", {"root": root_arg, "core": core_dir}, shm, shared_py)
+                dist["steps"] += 1
+                dist["registry_steps" if (shared_py and client) else "plain_steps"] += 1
+                dist["steps_unnamed"] += int(not client)
+                dist["steps_no_root"] += int(not root_arg)
+                if client and client in seen_clients:
+                    dist["regenerations_of_a_client"] += 1
+                if client:
+                    seen_clients.add(client)
+                files, ret_names = em.emit(_mk_spec(per_op), core_dir, client_package_name=client)
+                model = trace[si]
+                req = {"history": hi, "depth": depth, "step": si, "gens": gens[:si + 1]}
+                comparisons += 6
+                reg_path = os.path.join(core_dir, ".exception_registry.json")
+                py_reg = [[k, v] for k, v in json.load(open(reg_path)).items()] if os.path.exists(reg_path) else []
+                if py_reg != model["registry"]:
+                    disagree("registry", req, model["registry"], py_reg)
+                classes, all_list = _parse_alias_file(os.path.join(core_dir, "exception_aliases.py"))
+                exp_names = [m_name.get(c) for c in model["aliases"]]
+                exp_bases = [[m_base.get(c)] for c in model["aliases"]]
+                if [n for n, _ in classes] != exp_names:
+                    disagree("alias classes", req, exp_names, [n for n, _ in classes])
+                if [b for _, b in classes] != exp_bases:
+                    disagree("alias bases", req, exp_bases, [b for _, b in classes])
+                exp_all = sorted(exp_names) if exp_names else None
+                if all_list != exp_all:
+                    disagree("__all__", req, exp_all, all_list)
+                if ret_names != sorted(exp_names):
+                    disagree("emit return", req, sorted(exp_names), ret_names)
+                if files != [os.path.join(core_dir, "exception_aliases.py")]:
+                    disagree("emit files", req, None, files)
+            if hi in (2, 4, 5, 6, 7) and len(samples) < 5:
+                samples.append({"core_depth": depth, "core_package": ".".join(parts), "gens": gens,
+                                "model_final": final})
+            shutil.rmtree(os.path.join(scratch, f"h{hi}"), ignore_errors=True)
+
+    return {"comparisons": comparisons, "disagreements": disagreements[:50], "n_disagreements": len(disagreements),
+            "nontrivial": len(nontrivial_keys), "rule": RULE, "samples": samples, "distribution": dist}
 
 
-def rand_per_op():
-    return [[rng.choice(CODES) for _ in range(rng.randint(0, 5))] for _ in range(rng.randint(1, 3))]
+# ---------------------------------------------------------------------------------------------- oracle
+
+ORACLE_STATUSES = [400, 401, 404, 409, 422, 429, 500, 503]
+CORE_BY_DEPTH = {1: "core", 2: "shared.core", 3: "a.b.core", 4: "x.y.z.core"}
+ORACLE_CLIENTS = ["client_a", "client_b", "client_c", "client_d"]
+CLS_DEEP = "deep-shared-core-bypasses-registry"
+CLS_SHALLOW = "shared-core-regression"
 
 
-trial = 0
-# hand-picked: the C11 counterexamples and their recognised-layout contrast
-for depth in (1, 2, 3, 4):
-    root = os.path.join(SCRATCH, f"h{trial}", "proj")
-    run_history(trial, depth, [("client_a", [["200", "404"]], root), ("client_b", [["200", "500"]], root),
-                               ("client_a", [["422", "404", "404"]], root), ("client_b", [[]], root)])
-    trial += 1
-root = os.path.join(SCRATCH, f"h{trial}", "proj")
-run_history(trial, 1, [("client_a", [["404"]], root), (None, [["500"]], root), ("", [["418"]], root),
-                       ("client_b", [["503"]], None), ("client_b", [["503"]], ""), ("client_b", [["503"]], root)])
-trial += 1
-# seeded random histories
-for _ in range(250):
-    depth = rng.randint(1, 4)
-    root = os.path.join(SCRATCH, f"h{trial}", "proj")
-    clients = rng.sample(CLIENTS, rng.randint(2, 4))
-    steps = []
-    for _s in range(rng.randint(1, 6)):
-        r = rng.random()
-        client = rng.choice(clients) if r < 0.92 else (None if r < 0.96 else "")
-        root_arg = root if rng.random() < 0.93 else rng.choice([None, "", os.path.dirname(root)])
-        steps.append((client, rand_per_op(), root_arg))
-    run_history(trial, depth, steps)
-    trial += 1
+def _oracle_spec(title: str, codes: list, n_ops: int) -> dict:
+    paths = {}
+    for i in range(n_ops):
+        resp = {"200": {"description": "ok", "content": {"application/json": {"schema": {
+            "type": "object", "properties": {"id": {"type": "integer"}}}}}}}
+        for c in codes[i::n_ops] if n_ops > 1 else codes:
+            resp[str(c)] = {"description": f"error {c}"}
+        paths[f"/items{i}"] = {"get": {"operationId": f"list_items{i}", "summary": f"list {i}",
+                                       "tags": ["items" if i == 0 else f"group{i}"], "responses": resp}}
+    return {"openapi": "3.0.0", "info": {"title": title, "version": "1.0.0"}, "paths": paths}
 
-flush_shared()
-drv.close()
-shutil.rmtree(SCRATCH, ignore_errors=True)
-print(f"checks: {checks}; histories: {trial} (by core depth {depth_seen}); "
-      f"registry steps {shared_steps}, plain steps {unshared_steps}")
-print(f"{bad} disagreements")
-sys.exit(1 if bad else 0)
+
+_IMPORT_SNIPPET = (
+    "import sys, importlib, pkgutil; sys.path.insert(0, sys.argv[1]); p = sys.argv[2]; "
+    "importlib.import_module(p + '.client'); e = importlib.import_module(p + '.endpoints'); "
+    "[importlib.import_module(m.name) for m in pkgutil.walk_packages(e.__path__, e.__name__ + '.')]"
+)
+
+
+def _import_client(root: str, pkg: str):
+    env = dict(os.environ)
+    env.pop("PYTHONPATH", None)
+    extra = os.environ.get("VERIF_PYTHONPATH")  # optional: another checkout for the generated code's needs (none today)
+    if extra:
+        env["PYTHONPATH"] = extra
+    p = subprocess.run([PYTHON, "-c", _IMPORT_SNIPPET, root, pkg], capture_output=True, text=True, timeout=120,
+                       env=env, cwd=root)
+    last = (p.stderr.strip().splitlines() or [""])[-1]
+    return p.returncode == 0, last
+
+
+def _run_oracle_case(case: dict, scratch: str, pool: ThreadPoolExecutor, stop_at_first: bool = False):
+    """runs one history; returns (evaluations, failures, info)"""
+    from pyopenapi_gen import generate_client
+
+    root = os.path.join(scratch, f"o{case['id']}", "proj")
+    os.makedirs(root)
+    core_pkg = case["core_package"]
+    depth = len(core_pkg.split("."))
+    ever_worked: set = set()  # clients that imported fine at some earlier check
+    evaluations = 0
+    failures = []
+    info = {"nonforce_refused": 0, "generation_errors": 0}
+    for si, st in enumerate(case["steps"]):
+        client, codes, force = st["client"], st["codes"], st["force"]
+        spec_path = os.path.join(scratch, f"o{case['id']}", f"spec_{si}_{client}.json")
+        with open(spec_path, "w") as f:
+            json.dump(_oracle_spec(client, codes, st.get("ops", 1)), f)
+        out, err = io.StringIO(), io.StringIO()
+        gen_error = None
+        try:
+            with contextlib.redirect_stdout(out), contextlib.redirect_stderr(err):
+                generate_client(spec_path, root, client, core_package=core_pkg, force=force, no_postprocess=True)
+        except Exception as e:  # noqa: BLE001
+            gen_error = f"{type(e).__name__}: {str(e)[:200]}"
+            if not force and type(e).__name__ == "GenerationError":
+                info["nonforce_refused"] += 1  # diff check refuses to touch existing output: nothing was written
+            else:
+                info["generation_errors"] += 1
+        generated = sorted(c for c in ORACLE_CLIENTS if os.path.isdir(os.path.join(root, c)))
+        results = list(pool.map(lambda c: (c, *_import_client(root, c)), generated))
+        for c, ok, msg in results:
+            evaluations += 1
+            if ok:
+                ever_worked.add(c)
+            elif c == client and gen_error is None:
+                # the client just (re)generated does not import: not a sharing regression
+                failures.append({"class": "fresh-client-does-not-import",
+                                 "case": {**case, "failing_step": si, "failing_client": c},
+                                 "observed": msg, "expected": "a freshly generated client imports"})
+            elif c in ever_worked:
+                # a client that imported fine earlier no longer does after generating ANOTHER client
+                failures.append({
+                    "class": CLS_DEEP if depth >= 3 else CLS_SHALLOW,
+                    "case": {**case, "failing_step": si, "failing_client": c},
+                    "observed": msg,
+                    "expected": f"`import {c}.client, {c}.endpoints.*` keeps working after step {si} "
+                                f"(generate {client} {codes} force={force}"
+                                + (f", generator raised {gen_error}" if gen_error else "") + ")",
+                })
+        if stop_at_first and failures:
+            break
+    shutil.rmtree(os.path.join(scratch, f"o{case['id']}"), ignore_errors=True)
+    return evaluations, failures, info
+
+
+def _oracle_cases(seed: int, scale: float) -> list:
+    rng = random.Random(seed * 7919 + 11)
+    cases = []
+    # one fixed history per depth (A needs 404, B only 500, A regenerated with a changed spec, B non-force)
+    for depth in (1, 2, 3, 4):
+        cases.append({"id": len(cases), "core_package": CORE_BY_DEPTH[depth], "steps": [
+            {"client": "client_a", "codes": [404, 422], "force": True},
+            {"client": "client_b", "codes": [500], "force": True},
+            {"client": "client_a", "codes": [409], "force": True},
+            {"client": "client_b", "codes": [500], "force": False}]})
+    n_random = max(0, int(round(16 * scale)))
+    for k in range(n_random):
+        depth = 1 + (k % 4)
+        clients = rng.sample(ORACLE_CLIENTS, rng.randint(2, 4))
+        steps = []
+        order = list(clients)  # every client at least once, then repetitions / changed specs
+        rng.shuffle(order)
+        for _ in range(rng.randint(0, 2)):
+            order.append(rng.choice(clients))
+        seen = set()
+        for c in order:
+            codes = sorted(rng.sample(ORACLE_STATUSES, rng.randint(1, 3)))
+            steps.append({"client": c, "codes": codes, "force": (c not in seen and rng.random() < 0.5)
+                          or rng.random() < 0.7, "ops": rng.randint(1, 2)})
+            seen.add(c)
+        cases.append({"id": len(cases), "core_package": CORE_BY_DEPTH[depth], "steps": steps})
+    return cases
+
+
+def oracle(seed: int, scale: float) -> dict:
+    evaluations = 0
+    failures: list = []
+    info_total = {"histories": 0, "steps": 0, "nonforce_refused": 0, "generation_errors": 0,
+                  "histories_by_depth": {1: 0, 2: 0, 3: 0, 4: 0}}
+    with _scratch("oracle") as scratch, ThreadPoolExecutor(max_workers=8) as pool:
+        for case in _oracle_cases(seed, scale):
+            ev, fl, info = _run_oracle_case(case, scratch, pool)
+            evaluations += ev
+            failures += fl
+            info_total["histories"] += 1
+            info_total["steps"] += len(case["steps"])
+            info_total["histories_by_depth"][len(case["core_package"].split("."))] += 1
+            info_total["nonforce_refused"] += info["nonforce_refused"]
+            info_total["generation_errors"] += info["generation_errors"]
+    by_class: dict = {}
+    for f in failures:
+        by_class[f["class"]] = by_class.get(f["class"], 0) + 1
+    return {"evaluations": evaluations, "failures": failures, "failures_by_class": by_class, "info": info_total}
+
+
+def replay(case) -> bool:
+    """re-run one oracle case (the `case` of a failure, or a plain history); True iff the property is still violated
+    (for a failure case: the same client fails at the same step)"""
+    case = dict(case)
+    case.setdefault("id", 0)
+    with _scratch("replay") as scratch, ThreadPoolExecutor(max_workers=8) as pool:
+        _ev, fl, _info = _run_oracle_case(case, scratch, pool)
+    if "failing_step" in case:
+        return any(f["case"]["failing_step"] == case["failing_step"]
+                   and f["case"]["failing_client"] == case["failing_client"] for f in fl)
+    return bool(fl)
+
+
+# ---------------------------------------------------------------------------------------------- script
+
+if __name__ == "__main__":
+    import time
+
+    seed = int(sys.argv[1]) if len(sys.argv) > 1 else 1106
+    scale = float(sys.argv[2]) if len(sys.argv) > 2 else 1.0
+    drv = sys.argv[3] if len(sys.argv) > 3 else DEFAULT_DRIVER
+    t0 = time.time()
+    r = run(seed, scale, drv)
+    for d in r["disagreements"]:
+        print("DISAGREE", json.dumps(d, default=str)[:600])
+    print(f"comparisons: {r['comparisons']}; nontrivial histories: {r['nontrivial']}; "
+          f"distribution: {json.dumps(r['distribution'])}  [{time.time() - t0:.1f}s]")
+    print(f"{r['n_disagreements']} disagreements")
+    t0 = time.time()
+    o = oracle(seed, scale)
+    print(f"oracle: {o['evaluations']} evaluations, {len(o['failures'])} failures by class "
+          f"{json.dumps(o['failures_by_class'])}; {json.dumps(o['info'])}  [{time.time() - t0:.1f}s]")
+    if o["failures"]:
+        f = o["failures"][0]
+        print("first failure:", f["class"], "|", f["observed"])
+        print("replay(first failure) ->", replay(f["case"]))
+    sys.exit(1 if r["n_disagreements"] else 0)
